@@ -1,7 +1,7 @@
 # C16 — additional-layer store: lookup / use / release in any order
 PROPS["C16"] = dict(
     props_file="Properties/C16.v",
-    harnesses=[dict(cmd="store", mod="root", model="Model.Store", quick=320, thorough=16000, shard=40,
+    harnesses=[dict(cmd="store", mod="root", model="Model.Store", quick=240, thorough=12000, shard=30,
                     require=["op.lookup.diff", "op.lookup.blob", "op.lookup.racing", "op.info", "op.use", "op.release",
                              "op.loadref", "op.resolve", "op.probe", "fault.manifest", "fault.blob", "fault.blob.delivered",
                              "result.lookup.ok", "result.lookup.fail.unknown", "result.lookup.fail.fault",
